@@ -308,25 +308,19 @@ impl Type {
         }
     }
 
+    /// Number of audio channels a `dsp` parameter or result of this type stands for: one per
+    /// number, nested tuples and records counted by their numeric leaves (they are stored as
+    /// that many consecutive words).
     pub fn get_iochannel_count(&self) -> Option<u32> {
         match self {
-            Type::Tuple(ts) => {
-                if ts.iter().all(|t| t.to_type().is_iochannel_scalar()) {
-                    Some(ts.len() as _)
-                } else {
-                    None
-                }
-            }
-            Type::Record(kvs) => {
-                if kvs
-                    .iter()
-                    .all(|RecordTypeField { ty, .. }| ty.to_type().is_iochannel_scalar())
-                {
-                    Some(kvs.len() as _)
-                } else {
-                    None
-                }
-            }
+            Type::Tuple(ts) => ts
+                .iter()
+                .map(|t| t.to_type().get_iochannel_count())
+                .sum::<Option<u32>>(),
+            Type::Record(kvs) => kvs
+                .iter()
+                .map(|RecordTypeField { ty, .. }| ty.to_type().get_iochannel_count())
+                .sum::<Option<u32>>(),
             t if t.is_iochannel_scalar() => Some(1),
             Type::Primitive(PType::Unit) => Some(0),
             _ => None,
@@ -595,6 +589,15 @@ mod tests {
 
         assert!(!intermediate.to_type().contains_unresolved());
         assert_eq!(intermediate.word_size(), 2);
+    }
+
+    #[test]
+    fn iochannel_count_counts_numeric_leaves() {
+        let num = || Type::Primitive(PType::Numeric).into_id();
+        let pair = Type::Tuple(vec![num(), num()]).into_id();
+        assert_eq!(Type::Tuple(vec![pair, num()]).get_iochannel_count(), Some(3));
+        let text = Type::Primitive(PType::String).into_id();
+        assert_eq!(Type::Tuple(vec![pair, text]).get_iochannel_count(), None);
     }
 }
 
